@@ -302,6 +302,9 @@ def alphabets(thorough: bool):
         "中文�",
         "\U0001F600",
         "a\U0001F600b\U00010000",
+        "\ufeffHello",
+        "\ufeff",
+        "\ufffe\ufeffx",
         "x" * 200,
         "�" * 200,
     ]
@@ -1024,6 +1027,17 @@ def check_hstrp(kind, fv, p, inner, sv):
         gopts = [(t.name, d) for t, d in s2.options.options]
         if gopts != opts:
             probs.append(("hstrp_parsed_options_differ", f"{gopts!r} vs {opts!r}"))
+        elif sb2 == sb:
+            # the parsed datagram is forwarded with one more option (the caller edits the parsed object): the bytes follow the object
+            s3 = HSTRP.from_bytes(sb)
+            s3.options.add_option(HSTRPOptionType["ChannelID"], b"\x07")
+            s3.pkt_type.have_options = True
+            want3 = build_hstrp_ref(sv["version"], {**flags, "have_options": True}, sv["sn"], opts + [("ChannelID", b"\x07")], inner)
+            got3 = s3.as_bytes()
+            if got3 != want3:
+                probs.append(("hstrp_option_added_to_a_parsed_datagram_is_not_serialised", f"{got3.hex()} vs {want3.hex()}"))
+            elif len(s3.options) != sum(2 + len(d) for _, d in opts) + 3:
+                probs.append(("hstrp_options_len_after_adding_to_parsed", str(len(s3.options))))
         pt = s2.pkt_type
         gflags = {k: getattr(pt, k) for k in HSTRP_FLAG}
         if gflags != flags or s2.sn != sv["sn"] or s2.version != sv["version"]:
@@ -1323,6 +1337,8 @@ def hstrp_space(rep, kinds):
     t3 = ["RTP", "DeviceID", "ChannelID"] if t else ["RTP", "DeviceID"]
     l3 = [0, 4]
     optlists += [[[a, data(n)], [b, data(m, 1)], [c, data(k, 2)]] for a in t3 for n in l3 for b in t3 for m in l3 for c in t3 for k in l3]
+    for n_opts in (6, 7, 8, 12):
+        optlists.append([[types[i % len(types)], data((i * 3) % 5, i % 3)] for i in range(n_opts)])
     sns = [1, 0, 0xFF, 0x100, 0xFFFF] + ([0x8000] if t else [])
     flagsets = [
         {"is_reject": False, "is_close": False, "is_connect": False, "is_heartbeat": False, "is_ack": False},
